@@ -2,7 +2,31 @@
 HOOK_COMMITS = ["d9be94b"]
 NOT_APPLICABLE = {}
 
-_PBT = "property-based testing with pgregory.net/rapid (sharded, shrunk replay files; call-mutate-call-again, reused-buffer and spare-capacity sequences inside each case; coverage-guided go fuzzing over the same generators in the thorough tier)"
+_PBT = "property-based testing with pgregory.net/rapid (sharded, shrunk replay files; call-mutate-call-again, reused-buffer and spare-capacity sequences inside each case; generated schedules: concurrent callers released from a spin barrier against expectations computed beforehand by the reference; constructed hostile inputs; coverage-guided go fuzzing over the same generators in the thorough tier)"
+
+# additions of the third strengthening round, appended to the level text
+EXTRA = {
+    "C01": " Also: after every accepted triple the same bytes with the message/signature boundary moved are judged on their own; 2..16 goroutines verify their own triples concurrently.",
+    "C02": " Also: toy curves that report invalid candidates with an error wrapping ErrInvalidKey; paths of 255..513 steps; 2..8 goroutines deriving children from one shared extended key.",
+    "C03": " Also: sentences in which one word is replaced by a non-list string with the same 32-bit FNV hash (found by exhaustive search); concurrent first use of a freshly selected word list.",
+    "C04": " Also: well-formed strings whose checksum belongs to another constant (Bech32m, 0, ...); prefixes constructed to leave the checksum register at 0; error values re-inspected after 13 further rejected calls; concurrent callers sharing a fresh prefix.",
+    "C05": " Also: 25 fresh, never-encoded prefixes per case, each first used by 2..8 goroutines at once.",
+    "C06": " Also: caller-supplied dst slices (re-used while earlier results are held; adjacent windows of one buffer); 2..8 goroutines hashing with their own instances concurrently; a third build variant GOARCH=386 (32-bit words, 32 lanes).",
+    "C07": " Also: crypto.Signer with plentiful / empty / failing random sources against crypto/ed25519 with the same arguments; a rejected Verify of every kind between signing calls; concurrent callers with different keys.",
+    "C08": " Also: sequences of shifts passed through one caller buffer that is refilled between calls (all public shifts first); concurrent non-hardened children of one shared parent.",
+    "C09": " Also: pairs of valid (mnemonic, passphrase) inputs whose concatenations coincide although the split differs (word that is a prefix of a longer word; sentence that is a prefix of a longer sentence), computed alternately; hash-impostor words.",
+    "C10": " Also: the bytes returned by MarshalText are re-read after other paths were printed/marshalled and then overwritten by the caller.",
+    "C11": " Also: histories of 2..4 calls on one Worker mixing 64 KiB+ data and cancelled calls; 2..8 goroutines calling Mine on one shared Worker.",
+    "C12": " Also: len*target up to 2^64 with lanes at the exact soundness boundary (smallest hash values whose difficulty is len*target-1) and at every magnitude above the target hash; concurrent callers on one shared Worker.",
+    "C13": " Also: 2..5 calls issued back to back (uncancelled right after cancelled) under GOMAXPROCS 1..16; 300..600 successive successful calls in one process.",
+    "C14": " Also: first calls into the codecs made by 2..8 goroutines at once in 8 fresh child processes per case.",
+    "C15": " Also: leaf counts 1000..9000 under GOMAXPROCS 1..32 (powers of two and others); 2..8 goroutines sharing one Hasher.",
+    "C16": " Also: neighbours at distance <= 4 constructed (meet in the middle) to have the same 32-bit FNV-1a/FNV-1 hash and length as the valid string, decoded right after it; one goroutine decoding a corrupted copy while others decode valid strings of the same prefix; zero-register prefixes.",
+    "C17": " Also: the endomorphism eigenvalues (points with equal y and different x, scalars lambda, lambda+-1, ...) as corners; corner scalars as bit prefixes of longer scalars; sequences that reuse one pair of coordinate objects and one scalar buffer in place.",
+    "C18": " Also: hashes and marshalled proofs handed out earlier are re-read after other proofs were hashed.",
+    "C19": " Also: addresses whose checksum belongs to another constant (Bech32m, ...); concurrent callers of one network prefix.",
+    "C20": " Also: all four buffers placed (mmap MAP_FIXED_NOREPLACE) so that they straddle addresses whose low 32 bits are 0x80000000 / 0; a third build variant GOARCH=386 (portable code on 32-bit words) with a word-size generic hook check.",
+}
 
 TEXT = {
     "C01": dict(
@@ -31,7 +55,7 @@ TEXT = {
         note="Trusted: harness/ref/bech32.",
     ),
     "C06": dict(
-        technique="stateful (model-based) property-based testing with rapid: generated Absorb/Squeeze/Clone/Reset/rejected-call histories against 1..64 independent scalar Curl-P-81 sponges; invariant after every step on the decoded bit-sliced state; run under the default and the purego build",
+        technique="stateful (model-based) property-based testing with rapid: generated Absorb/Squeeze/Clone/Reset/rejected-call histories against 1..64 independent scalar Curl-P-81 sponges; invariant after every step on the decoded bit-sliced state; run under the default, the purego and the GOARCH=386 build; concurrent independent instances",
         level="Each generated history (up to 4 instances, batch sizes weighted to 1, 2, 63, 64, equal / nearly equal / all-different lanes, split absorbs, multi-block squeezes, clones, resets, rejected calls) is executed against the implementation and against one scalar reference sponge per lane; after every call the full 729-trit state of every lane and every squeezed block must agree, rejected calls must leave the state bit-identical. Sampled histories; the shrunk failing history is the replay file.",
         note="Trusted: harness/ref/curl (validated on pinned vectors). The state is observed through the public CopyState.",
     ),
@@ -101,8 +125,11 @@ TEXT = {
         note="Trusted: harness/ref/bech32, harness/ref/trit, x/crypto/blake2b.",
     ),
     "C20": dict(
-        technique=_PBT + " directly on the two permutation routines (hook) with guard-page fault injection; oracle = differential (assembly vs portable, bit for bit) + scalar truth-table Curl-P-81 per lane + lane-independence metamorphic relation + concurrent first-use runs in fresh child processes (re-entrancy); default and purego builds",
+        technique=_PBT + " directly on the two permutation routines (hook) with guard-page fault injection; oracle = differential (assembly vs portable, bit for bit) + scalar truth-table Curl-P-81 per lane + lane-independence metamorphic relation + concurrent first-use runs in fresh child processes (re-entrancy); buffers at 2^31/2^32 address boundaries; default, purego and GOARCH=386 builds",
         level="Generated bit-sliced states (valid 64-lane states, states with undefined pairs, arbitrary word patterns) are run through the build-selected transform and transformGeneric with all four buffers flush against PROT_NONE guard regions: outputs must agree bit for bit, equal 81 rounds of scalar Curl-P in every valid lane, never contain (0,0), keep lanes independent, and no access may fault or touch the canaries. States are sampled (2^93312 states cannot be enumerated); the memory-safety half covers every access of the routine as checked in because its addresses are input-independent.",
         note="Trusted: harness/ref/curl; Linux mmap/mprotect + debug.SetPanicOnFault as the out-of-bounds detector (accesses farther than 1 MiB away landing in mapped memory would be missed). Hooks: VerifTransform / VerifTransformGeneric under build tag verif; without the hook only the public sponge-level sub-check runs.",
     ),
 }
+
+for _k, _v in EXTRA.items():
+    TEXT[_k]["level"] += _v
